@@ -3,6 +3,7 @@ package json
 import (
 	"bytes"
 	"encoding/json"
+	"errors"
 
 	jsonschema "github.com/santhosh-tekuri/jsonschema/v5"
 )
@@ -25,6 +26,10 @@ func (v Validator) ValidateData(data, schema []byte) error {
 	err = json.Unmarshal(data, &c)
 	if err != nil {
 		return err
+	}
+	if c == nil {
+		// JSON null decodes into a nil map without an error
+		return errors.New("data is not a JSON object")
 	}
 
 	sh, err := compiler.Compile("temp.json")
